@@ -1,4 +1,4 @@
-From Coq Require Import Sorting.Sorted.
+From Coq Require Import Lia Sorting.Sorted Sorting.Permutation.
 From Errdef Require Import Base.Str Base.StrOrd Base.Outcome Model.Core Model.Convert Model.Unmarshal Check.UM Check.C13 Proofs.C10Proofs Proofs.SortFields.
 
 Definition proj_typed (x : list (ukey * bval) * list (string * dval) * list failure * option string) := fst (fst (fst x)).
@@ -309,4 +309,204 @@ Proof.
   destruct cres as [cs'|ff|w]; try discriminate. inversion E; subst e; clear E. cbn [r_unknown] in Hin.
   apply collect_unknown in Hin. apply in_map_iff in Hin as [nv [E _]]. inversion E; subst.
   symmetry in H1. eapply bind_unknown_strict; eauto.
+Qed.
+
+(* ---------- the observation follows the model: link to the decision table ---------- *)
+Lemma list_eqb_forall2 {A} (f : A -> A -> bool) l1 l2 : list_eqb f l1 l2 = true -> Forall2 (fun a b => f a b = true) l1 l2.
+Proof.
+  revert l2. induction l1 as [|x r IH]; intros [|y r2] H; cbn in H; try discriminate; constructor.
+  - now apply andb_true_iff in H as [H _].
+  - apply IH. now apply andb_true_iff in H as [_ H].
+Qed.
+
+Lemma forall2_in_r {A B} (R : A -> B -> Prop) l1 l2 y : Forall2 R l1 l2 -> In y l2 -> exists x, In x l1 /\ R x y.
+Proof.
+  induction 1 as [|a b r1 r2 Hab _ IH]; intros Hin; [destruct Hin|]. destruct Hin as [<-|Hin].
+  - exists a. split; [now left|exact Hab].
+  - destruct (IH Hin) as [x [Hx Hr]]. exists x. split; [now right|exact Hr].
+Qed.
+Lemma forall2_in_l {A B} (R : A -> B -> Prop) l1 l2 x : Forall2 R l1 l2 -> In x l1 -> exists y, In y l2 /\ R x y.
+Proof.
+  induction 1 as [|a b r1 r2 Hab _ IH]; intros Hin; [destruct Hin|]. destruct Hin as [<-|Hin].
+  - exists b. split; [now left|exact Hab].
+  - destruct (IH Hin) as [y [Hy Hr]]. exists y. split; [now right|exact Hr].
+Qed.
+
+Lemma ins_S_perm {A} (x : string * A) l : Permutation (ins_S x l) (x :: l).
+Proof.
+  induction l as [|y r IH]; cbn; [apply Permutation_refl|]. destruct (String.leb _ _); [apply Permutation_refl|].
+  eapply Permutation_trans; [apply perm_skip; exact IH|apply perm_swap].
+Qed.
+Lemma sort_S_in {A} (l : list (string * A)) x : In x (fold_right ins_S [] l) <-> In x l.
+Proof.
+  assert (P : Permutation (fold_right ins_S [] l) l).
+  { induction l as [|y r IH]; cbn; [constructor|]. eapply Permutation_trans; [apply ins_S_perm|now apply perm_skip]. }
+  split; apply Permutation_in; [exact P|now apply Permutation_sym].
+Qed.
+
+Lemma resolve_expected c k def : resolve_kind_u c k = UOk def -> expected_def c k = Some def.
+Proof.
+  unfold resolve_kind_u, expected_def, resolve_kind_def.
+  destruct (u_default c) as [dflt|]; [destruct (u_strict c)|];
+    destruct (find (fun d => str_eqb (d_kind (ud_def d)) k) (u_defs c)); intros H; inversion H; try reflexivity.
+Qed.
+
+Lemma kind_known_find c k : kind_known c k = match find (fun d => str_eqb (d_kind (ud_def d)) k) (u_defs c) with Some _ => true | None => false end.
+Proof.
+  unfold kind_known. induction (u_defs c) as [|d r IH]; cbn; [reflexivity|]. destruct (str_eqb (d_kind (ud_def d)) k); cbn; [reflexivity|exact IH].
+Qed.
+
+Lemma resolve_fail c k f : resolve_kind_u c k = UFail f ->
+  kind_known c k = false /\ f = [{| fl_class := cls_kind; fl_kind := k; fl_field := "" |}].
+Proof.
+  rewrite kind_known_find. unfold resolve_kind_u, resolve_kind_def.
+  destruct (u_default c) as [dflt|]; [destruct (u_strict c)|];
+    destruct (find (fun d => str_eqb (d_kind (ud_def d)) k) (u_defs c)); intros H; inversion H; split; reflexivity.
+Qed.
+
+Lemma resolve_strict_known c k def : u_strict c = true -> resolve_kind_u c k = UOk def -> kind_known c k = true.
+Proof.
+  rewrite kind_known_find. unfold resolve_kind_u, resolve_kind_def. intros Hs. rewrite Hs.
+  destruct (u_default c) as [dflt|]; destruct (find (fun d => str_eqb (d_kind (ud_def d)) k) (u_defs c)); intros H; inversion H; reflexivity.
+Qed.
+
+Lemma resolve_lenient_unknown c k def : u_strict c = false -> kind_known c k = false -> resolve_kind_u c k = UOk def ->
+  u_default c = Some def.
+Proof.
+  rewrite kind_known_find. unfold resolve_kind_u, resolve_kind_def. intros Hs Hk. rewrite Hs.
+  destruct (u_default c) as [dflt|]; destruct (find (fun d => str_eqb (d_kind (ud_def d)) k) (u_defs c)); try discriminate; intros H; inversion H; reflexivity.
+Qed.
+
+(* a top-level failure of class unknown_field names a field of the document and its kind *)
+Lemma field_failure_names c m k t fs st cs u f :
+  unmarshal c (DD m k t fs st cs u) = UFail [f] -> fl_class f = cls_field ->
+  fl_kind f = k /\ In (fl_field f) (map fst fs).
+Proof.
+  intros E Hc. destruct (unmarshal_unfold2 c m k t fs st cs u) as [cres [Hcres E2]]. rewrite E2 in E.
+  destruct (resolve_kind_u c k) as [def|ff|w] eqn:R; [| |discriminate].
+  - cbv zeta in E. destruct (proj_panic _); [discriminate|].
+    destruct (proj_fails _) as [|f0 fl] eqn:Fl.
+    + destruct cres as [cs'|ff|w]; try discriminate. cbn in Hcres. subst ff. inversion E; subst f. discriminate.
+    + inversion E; subst f0.
+      assert (Hin : In f (proj_fails (collect_fields (map (fun nv => (fst nv, bind_field c def k (fst nv) (snd nv))) (sort_fields fs))))) by (rewrite Fl; now left).
+      apply collect_fails in Hin as [n Hin]. apply in_map_iff in Hin as [[n0 v0] [Q Hin]]. cbn in Q. inversion Q; subst n0.
+      apply (proj1 (sort_fields_in _ _)) in Hin.
+      unfold bind_field in H1. destruct (is_placeholder v0); [discriminate|].
+      destruct (first_convert (named n (ud_keys def)) v0) as [[[k0 b0]|]|cl|w]; try discriminate.
+      * destruct (first_convert (named n (u_custom c)) v0) as [[[k0 b0]|]|cl|w]; try discriminate.
+        -- destruct (u_strict c); [|discriminate]. inversion H1; subst f. cbn. split; [reflexivity|].
+           apply in_map_iff. now exists (n, v0).
+        -- inversion H1; subst f. discriminate.
+      * inversion H1; subst f. discriminate.
+  - apply resolve_fail in R as [_ ->]. inversion E; subst f. discriminate.
+Qed.
+
+Lemma oval_eqb_placeholder ov : oval_eqb ov (OVS 1 (SStr redacted_str)) = true -> is_placeholder_oval ov = true.
+Proof.
+  destruct ov as [|t v|s|p e v|t r]; cbn; try discriminate. intros H. apply andb_true_iff in H as [Ht Hv].
+  apply N.eqb_eq in Ht. subst t. destruct v; cbn in Hv; try discriminate. exact Hv.
+Qed.
+
+Theorem corr_implies_ok13 c : UM.corr c = true -> C13.ok c = true.
+Proof.
+  unfold UM.corr, C13.ok. set (o := c_obs c). intros H.
+  destruct (c_in c) as [[m k t fs st cs u]|] eqn:Hcin; [|reflexivity].
+  destruct (c_decerr c) eqn:De; [reflexivity|].
+  apply andb_true_iff in H as [_ Hm]. unfold model_res in Hm. rewrite De, Hcin in Hm. cbn [unmarshal_top] in Hm.
+  pose proof (unmarshal_total (c_cfg c) (Some (DD m k t fs st cs u))) as G. cbn [unmarshal_top] in G.
+  destruct (unmarshal (c_cfg c) (DD m k t fs st cs u)) as [e|ffs|w] eqn:E; cbn in G; [| |contradiction].
+  - (* success *)
+    apply andb_true_iff in Hm as [Hc Hr]. rewrite Hc.
+    destruct (uo_res o) as [[d' m' ty' un' al' st' cs']|] eqn:Ro; [|discriminate].
+    destruct e as [def m0 typed unknown st0 cs0]. cbn [orerr_of orerr_eqb] in Hr.
+    repeat (apply andb_true_iff in Hr as [Hr ?]).
+    match goal with Hd : Nat.eqb d' _ = true |- _ => apply Nat.eqb_eq in Hd end.
+    match goal with Hu : list_eqb _ un' _ = true |- _ => apply list_eqb_forall2 in Hu; rename Hu into Hun end.
+    (* the resolved definition *)
+    assert (R : resolve_kind_u (c_cfg c) k = UOk def).
+    { destruct (unmarshal_unfold2 (c_cfg c) m k t fs st cs u) as [cres [_ E2]]. rewrite E2 in E.
+      destruct (resolve_kind_u (c_cfg c) k) as [def'|ff|w]; try discriminate. cbv zeta in E.
+      destruct (proj_panic _); [discriminate|]. destruct (proj_fails _); [|discriminate].
+      destruct cres; try discriminate. now inversion E. }
+    rewrite (resolve_expected _ _ _ R).
+    assert (Str_cls : str_eqb "ok" cls_kind = false) by reflexivity.
+    assert (Str_fld : str_eqb "ok" cls_field = false) by reflexivity.
+    apply str_eqb_eq in Hc. unfold unknown_of, def_of. rewrite Ro. rewrite Hc. cbn [negb orb andb].
+    destruct (u_strict (c_cfg c)) eqn:Hs.
+    + rewrite (resolve_strict_known _ _ _ Hs R). cbn [orb andb].
+      apply andb_true_iff. split; [apply andb_true_iff; split|].
+      * (* no unregistered field: it would have failed *)
+        rewrite orb_false_r. apply negb_true_iff. destruct (existsb _ fs) eqn:X; [|reflexivity]. exfalso.
+        apply existsb_exists in X as [[n v] [Hin Q]]. cbn in Q. apply andb_true_iff in Q as [Q1 Q2].
+        apply negb_true_iff in Q1. apply negb_true_iff in Q2.
+        destruct (strict_unknown_field (c_cfg c) m k t fs st cs u def n v Hs R Hin Q1 Q2) as [f [n' [v' [E' _]]]]. congruence.
+      * reflexivity.
+      * (* only placeholders among the unknown fields *)
+        apply forallb_forall. intros [n ov] Hin.
+        destruct (forall2_in_l _ _ _ _ Hun Hin) as [[n2 ov2] [Hin2 Q]]. cbn in Q. apply andb_true_iff in Q as [_ Q].
+        apply (proj1 (sort_S_in _ _)) in Hin2. apply (proj1 (in_map_iff _ _ _)) in Hin2 as [[n3 v3] [Q3 Hin3]]. inversion Q3; subst n2 ov2.
+        assert (Hv : v3 = DS {| s_id := 1; s_kind := KString |} (SStr redacted_str)).
+        { eapply (strict_success_only_placeholders (c_cfg c) m k t fs st cs u _ n3 v3 Hs E). exact Hin3. }
+        subst v3. cbn [snd oval_of_dval s_id] in Q |- *. now apply oval_eqb_placeholder.
+    + (* lenient *)
+      apply andb_true_iff. split; [apply andb_true_iff; split|].
+      * destruct (kind_known (c_cfg c) k) eqn:Kn; [reflexivity|]. cbn [orb].
+        rewrite (resolve_lenient_unknown _ _ _ Hs Kn R). cbn. match goal with Hd : d' = _ |- _ => rewrite Hd end. apply Nat.eqb_refl.
+      * reflexivity.
+      * apply forallb_forall. intros [n v] Hin. cbn [fst snd].
+        destruct (registered (c_cfg c) def n) eqn:Rg; [reflexivity|]. destruct (is_placeholder v) eqn:Pl; [reflexivity|]. cbn [orb].
+        destruct (lenient_unknown_retrievable (c_cfg c) m k t fs st cs u def _ n v Hs R E Hin Rg Pl) as [Hu _]. cbn [r_unknown] in Hu.
+        assert (Hs2 : In (n, oval_of_dval v) (fold_right ins_S [] (map (fun nv : string * dval => (fst nv, oval_of_dval (snd nv))) unknown))).
+        { apply sort_S_in. apply in_map_iff. now exists (n, v). }
+        destruct (forall2_in_r _ _ _ _ Hun Hs2) as [[n1 ov1] [Hin1 Q]]. cbn in Q.
+        apply existsb_exists. exists (n1, ov1). split; [exact Hin1|exact Q].
+  - (* failure *)
+    apply andb_true_iff in Hm as [Hm Hr]. destruct (uo_res o) eqn:Ro; [discriminate|].
+    apply existsb_exists in Hm as [f [Hinf Hf]]. unfold failure_matches in Hf.
+    apply andb_true_iff in Hf as [Hf Hf3]. apply andb_true_iff in Hf as [Hf1 Hf2].
+    apply str_eqb_eq in Hf1. apply str_eqb_eq in Hf2. apply str_eqb_eq in Hf3.
+    destruct G as [_ G]. rewrite Forall_forall in G. pose proof (G f Hinf) as Cl.
+    assert (NotOk : str_eqb (uo_class o) "ok" = false).
+    { rewrite Hf1. destruct Cl as [-> |[-> | ->]]; reflexivity. }
+    unfold unknown_of, def_of. rewrite Ro, NotOk. cbn [negb orb andb forallb].
+    (* the failure list has one element in every branch of the model *)
+    assert (One : ffs = [f] \/ exists def, resolve_kind_u (c_cfg c) k = UOk def).
+    { destruct (resolve_kind_u (c_cfg c) k) as [def|ff|w] eqn:R; [right; now exists def| |].
+      - left. destruct (unmarshal_unfold2 (c_cfg c) m k t fs st cs u) as [cres [_ E2]]. rewrite E2, R in E.
+        apply resolve_fail in R as [_ ->]. inversion E; subst ffs. destruct Hinf as [<-|[]]. reflexivity.
+      - exfalso. destruct (unmarshal_unfold2 (c_cfg c) m k t fs st cs u) as [cres [_ E2]]. rewrite E2, R in E. discriminate. }
+    destruct (resolve_kind_u (c_cfg c) k) as [def|ff|w] eqn:R.
+    + (* kind resolved: the failure comes from the fields or the causes *)
+      rewrite (resolve_expected _ _ _ R).
+      assert (Single : ffs = [f]).
+      { destruct (unmarshal_unfold2 (c_cfg c) m k t fs st cs u) as [cres [Hcres E2]]. rewrite E2, R in E. cbv zeta in E.
+        destruct (proj_panic _); [discriminate|]. destruct (proj_fails _) as [|f0 fl].
+        - destruct cres as [cs'|ff|w]; try discriminate. cbn in Hcres. subst ff. inversion E; subst ffs. destruct Hinf as [<-|[]]. reflexivity.
+        - inversion E; subst ffs. destruct Hinf as [<-|[]]. reflexivity. }
+      subst ffs.
+      assert (FieldCase : str_eqb (uo_class o) cls_field = true ->
+                          existsb (fun nv : string * dval => str_eqb (fst nv) (uo_field o)) fs && str_eqb (uo_kind o) k = true).
+      { intros Hcf. apply str_eqb_eq in Hcf. rewrite Hf1 in Hcf.
+        destruct (field_failure_names (c_cfg c) m k t fs st cs u f E Hcf) as [A B].
+        rewrite Hf2, Hf3, A, str_eqb_refl, andb_true_r. apply existsb_exists.
+        apply in_map_iff in B as [[n v] [Q Hin]]. exists (n, v). split; [exact Hin|]. cbn in *. rewrite Q. apply str_eqb_refl. }
+      destruct (u_strict (c_cfg c)) eqn:Hs.
+      * rewrite (resolve_strict_known _ _ _ Hs R). cbn [orb andb]. rewrite !orb_true_r. cbn [andb].
+        rewrite andb_true_r. destruct (str_eqb (uo_class o) cls_field) eqn:Cf; [cbn; now apply FieldCase|reflexivity].
+      * (* lenient: never an unknown-field failure *)
+        pose proof (lenient_fields_never_fail (c_cfg c) m k t fs st cs u f Hs) as L. rewrite E in L. specialize (L (or_introl eq_refl)).
+        assert (Nf : str_eqb (uo_class o) cls_field = false).
+        { destruct (str_eqb (uo_class o) cls_field) eqn:X; [|reflexivity]. apply str_eqb_eq in X. rewrite Hf1 in X. contradiction. }
+        rewrite Nf. cbn [negb andb]. rewrite andb_true_r.
+        destruct (kind_known (c_cfg c) k) eqn:Kn; [reflexivity|]. cbn [orb].
+        rewrite (resolve_lenient_unknown _ _ _ Hs Kn R). reflexivity.
+    + (* unknown kind *)
+      assert (Dn : u_strict (c_cfg c) = false -> u_default (c_cfg c) = None).
+      { intros Hs. unfold resolve_kind_u in R. rewrite Hs in R. destruct (u_default (c_cfg c)); [discriminate|reflexivity]. }
+      destruct (unmarshal_unfold2 (c_cfg c) m k t fs st cs u) as [cres [_ E2]]. rewrite E2, R in E.
+      apply resolve_fail in R as [Kn ->]. inversion E; subst ffs. destruct Hinf as [<-|[]]. cbn in Hf1, Hf2.
+      rewrite Kn. cbn [orb]. rewrite Hf1, Hf2, !str_eqb_refl. cbn [andb].
+      unfold expected_def. rewrite kind_known_find in Kn. destruct (find _ (u_defs (c_cfg c))); [discriminate|].
+      destruct (u_strict (c_cfg c)) eqn:Hs; [reflexivity|]. rewrite (Dn eq_refl). reflexivity.
+    + exfalso. destruct (unmarshal_unfold2 (c_cfg c) m k t fs st cs u) as [cres [_ E2]]. rewrite E2, R in E. discriminate.
 Qed.
